@@ -162,7 +162,11 @@ def _hash_fn_cands(fns, name):
     old = [f for f in fns.values() if f["qname"].split("<")[0].endswith(name) or f["qname"] == name]
     if old:
         return old
-    return [f for f in sorted(fns.values(), key=lambda f: f["pat"]) if f["name"] == simple and f.get("body") is not None and (cls is None or short(f.get("rect") or "").endswith(cls))]
+    got = [f for f in sorted(fns.values(), key=lambda f: f["pat"]) if f["name"] == simple and f.get("body") is not None and (cls is None or short(f.get("rect") or "").endswith(cls))]
+    if not got and cls is not None:
+        # a member made a file-local free function (or the other way round) keeps its identity
+        got = [f for f in sorted(fns.values(), key=lambda f: f["pat"]) if f["name"] == simple and f.get("body") is not None and not f.get("rect")]
+    return got
 
 
 def hash_constants_rule(facts):
@@ -185,6 +189,61 @@ def hash_constants_rule(facts):
             extra = [x for x in a if x not in b or a.count(x) > b.count(x)]
             missing = [x for x in b if x not in a or b.count(x) > a.count(x)]
             out.append(ob("layout.hash", key, fn["pat"], "violated", "literals of %s differ from the published definition: unexpected %s, missing %s: hashes no longer match other implementations (sketches stop being mergeable across languages)" % (name, sorted(set(extra), key=str)[:4], sorted(set(missing), key=str)[:4]), fn["qname"]))
+    return out
+
+
+CODEC_FUNCS = ["cpc_compressor::low_level_compress_bytes", "cpc_compressor::low_level_compress_pairs", "cpc_compressor::low_level_uncompress_bytes",
+               "cpc_compressor::low_level_uncompress_pairs", "cpc_compressor::safe_length_for_compressed_pair_buf", "cpc_compressor::safe_length_for_compressed_window_buf"]
+
+
+def codec_literal_set(fn, fns, depth=2):
+    """the distinct integer constants of fn and of the library helpers of its own directory that it calls (a block moved into a
+    helper, or a helper inlined by hand, changes nothing)"""
+    by_pat = {f["pat"]: f for f in fns.values()}
+    seen, todo, acc = set(), [(fn, 0)], set()
+    while todo:
+        f, d = todo.pop()
+        if f["pat"] in seen or f.get("body") is None:
+            continue
+        seen.add(f["pat"])
+        # the constants the bit counters are advanced by (stream paddings, code lengths) and the peek / mask widths
+        def lit(n):
+            if n.get("k") == "Assign" and n.get("op") in ("+=", "-=") and isinstance(strip_all(n["r"]).get("v"), int):
+                acc.add("%s%d" % (n["op"], strip_all(n["r"])["v"]))
+            if n.get("k") == "Bin" and n.get("op") in ("+", "-") and isinstance(strip_all(n["r"]).get("v"), int) and strip_all(n["r"])["v"] > 1 and strip_all(n["l"]).get("k") in ("Ref", "Member", "Bin"):
+                acc.add("%s%d" % (n["op"], strip_all(n["r"])["v"]))
+        walk(f["body"], lit)
+        if d < depth:
+            def v(n, d=d):
+                if n.get("k") == "Call" and n.get("cpat") in by_pat and str(n["cpat"]).split("/")[0] == str(fn["pat"]).split("/")[0]:
+                    todo.append((by_pat[n["cpat"]], d + 1))
+            walk(f["body"], v)
+    return sorted(acc)
+
+
+def codec_constants_rule(facts):
+    """the integer literals (named constants by value) of the CPC low-level encoders / decoders and of the buffer-size functions
+    equal the reviewed ones: peek width 12, stream paddings 11 (bytes) and 10 (pairs), word size 32, .. - the compressed stream is a
+    cross-language format, and encoder padding, decoder peek width and buffer bound must stay in step"""
+    sp = spec().get("codec_literals", {})
+    fns = functions_by(facts, ["cpc"])
+    out = []
+    for name, want in sorted(sp.items()):
+        cands = _hash_fn_cands(fns, name)
+        key = "codec:" + name
+        if not cands:
+            out.append(ob("cpc.codec", key, "", "unrecognised", "function %s not found" % name, ""))
+            continue
+        fn = cands[0]
+        got = codec_literal_set(fn, fns)
+        # every reviewed constant must still be there (constants of other helpers that became reachable do not matter)
+        if all(x in got for x in want):
+            out.append(ob("cpc.codec", key, fn["pat"], "discharged", "%d distinct integer constants equal the reviewed codec constants" % len(got), fn["qname"]))
+        else:
+            a, b = list(got), list(want)
+            extra = [x for x in a if x not in b or a.count(x) > b.count(x)]
+            missing = [x for x in b if x not in a or b.count(x) > a.count(x)]
+            out.append(ob("cpc.codec", key, fn["pat"], "violated", "constants of %s differ from the reviewed codec: unexpected %s, missing %s: the encoder's padding, the decoder's peek width and the buffer bound are no longer in step (an image can come out one word short, or be read past its end)" % (name, sorted(set(extra), key=str)[:4], sorted(set(missing), key=str)[:4]), fn["qname"]))
     return out
 
 
@@ -345,6 +404,10 @@ def ast_digest(fn):
                     if isinstance(op0, dict) and op0.get("k") not in ("Int", "Bool", "Float", "Sizeof") and op0.get("sz") and n.get("sz") and op0.get("sz") != n.get("sz") \
                             and n.get("ck") in ("IntegralCast",) and isinstance(op0.get("v"), type(None)):
                         t = "ICast:%s>%s" % (op0.get("sz"), n.get("sz"))
+                    elif n.get("ck") in ("IntegralToFloating", "FloatingToIntegral"):
+                        # a value that changes representation (an integer bit pattern stored through the double member of a
+                        # union is converted numerically, not bit for bit)
+                        t = "ICast:" + n.get("ck")
                     else:
                         t = None
                 if t:
